@@ -13,7 +13,9 @@ import (
 	"net/http/httptest"
 	"os"
 	"path/filepath"
+	"runtime"
 	"sync"
+	"sync/atomic"
 	"testing"
 	"time"
 
@@ -69,10 +71,36 @@ func TestRaceC14(t *testing.T) {
 		req.Header.Set("Sec-X-Tailscale-No-Browsers", "setec")
 		mux.ServeHTTP(httptest.NewRecorder(), req)
 	}
+	// a secret with two stable versions whose active version flips while several clients get it and go on
+	// using what they got (a response belongs to the client that received it)
+	d.Put(su, "c", []byte("value-one"))
+	d.Put(su, "c", []byte("value-two"))
+	var sink atomic.Int64
+	use := func(sv *api.SecretValue, err error) {
+		if err != nil || sv == nil {
+			return
+		}
+		runtime.Gosched()
+		x := int64(sv.Version)
+		for _, b := range sv.Value {
+			x += int64(b)
+		}
+		sink.Add(x)
+	}
 	n := iterations()
 	for it := 0; it < n; it++ {
 		var wg sync.WaitGroup
 		ops := []func(){
+			func() {
+				d.Activate(su, "c", api.SecretVersion(it%2+1))
+				d.Activate(su, "c", api.SecretVersion((it+1)%2+1))
+			},
+			func() { use(d.Get(su, "c")); use(d.Get(su, "c")) },
+			func() { use(d.GetConditional(su, "c", 7)); use(d.GetVersion(su, "c", 1)) },
+			func() {
+				post("/api/get", api.GetRequest{Name: "c"})
+				post("/api/get", api.GetRequest{Name: "c", Version: 7, UpdateIfChanged: true})
+			},
 			func() { d.Put(su, "a", []byte(fmt.Sprint("v", it))) },
 			func() { d.Get(su, "a"); d.GetConditional(su, "a", 1) },
 			func() {
